@@ -82,7 +82,7 @@ impl NormalFormQuery {
         partition_range: Range<usize>,
         batch_size: usize,
     ) -> Result<(BatchResult<'a>, Option<String>), QueryError> {
-        let limit = (self.limit.limit + self.limit.offset) as usize;
+        let limit = self.limit.limit.saturating_add(self.limit.offset) as usize;
         let mut planner = QueryPlanner::default();
 
         let (filter_plan, filter_type) = QueryPlan::compile_expr(
